@@ -2,6 +2,7 @@
 import datetime
 import io
 import math
+import os
 
 import numpy as np
 
@@ -14,7 +15,7 @@ PROP = "C18"
 RULE = ("passes (POD with real clock-drift tables: noaa14 2001, noaa11 1990, noaa9 1987; KLM; POD with correction disabled) "
         "with midnight / New Year / leap-day boundaries placed at chosen lines (incl. boundaries that the drift shift moves "
         "across), gaps and first line numbers > 1, records stored twice with as many later records absent; for each pass a random history of accessor calls (get_times, get_lonlat, "
-        "create_counts_dataset, get_calibrated_channels, get_angles, meta read) triggers the metadata; stored metadata and "
+        "create_counts_dataset, get_calibrated_channels, get_angles, save of a cut, meta read) triggers the metadata; stored metadata and "
         "dataset attrs are compared with the functions of the FINAL returned times. A case = (pass, history); non-trivial = "
         "distinct case with a day boundary inside the pass or missing lines")
 ASSUME = ["Earth-Sun factor formula 1-0.0334*cos(2*pi*(jday-2)/365.25) is evaluated in Python floats for the comparison (C04 covers it)",
@@ -22,7 +23,7 @@ ASSUME = ["Earth-Sun factor formula 1-0.0334*cos(2*pi*(jday-2)/365.25) is evalua
 TB = ["coqc 8.16.1 kernel; vm_compute decides the finite calendar sweep (every day 1970..2100)",
       "correspondence check_meta evaluated in Coq; histories compared with P_Cache.canon_run by the harness"]
 
-OPS = ["times", "lonlat", "dataset", "calibrated", "angles", "meta"]
+OPS = ["times", "lonlat", "dataset", "calibrated", "angles", "meta", "save"]
 
 
 def factor(jday):
@@ -59,6 +60,15 @@ def do_op(r, op):
     if op == "angles":
         r.get_angles()
         return ("angles", None)
+    if op == "save":      # writes the three legacy files for a cut of the pass; the reader's own metadata must not change
+        import tempfile, shutil
+        out = tempfile.mkdtemp(prefix="pv_c18_", dir=os.environ.get("VERIF_SCRATCH", "/tmp"))
+        try:
+            n_ = len(r.scans)
+            r.save(min(5, max(0, n_ - 10)), max(0, n_ - 4), output_dir=out + "/")
+        finally:
+            shutil.rmtree(out, ignore_errors=True)
+        return ("save", None)
     if op == "meta":
         return ("meta", dict(r.meta_data))
 
